@@ -225,6 +225,12 @@ pub enum AppOp {
     Release,
     /// drop the receipt obtained by the previous PubQ2 of this sender
     DropReceipt,
+    /// call `release()` on the receipt and drop the returned future without polling it (the losing branch of a
+    /// select, a task cancelled between creating and awaiting it): the receipt is gone, its PUBREL is still due
+    DropRelease,
+    /// QoS 0 publish that carries a packet identifier (a received QoS 1/2 packet forwarded as it is): refused
+    /// by the encoder, nothing may reach the wire
+    PubQ0Pid { len: u32, pid: u16 },
     Subscribe { n: u8, pid: Option<u16> },
     Unsubscribe { n: u8, pid: Option<u16> },
     Ready,
@@ -258,6 +264,9 @@ impl AppOp {
         // a QoS1 publish to them)
         if let AppOp::PubQ1Nb { len, pid } = self {
             return format!("PubQ1 {{ len: {len}, pid: {pid:?}, no_block }}");
+        }
+        if let AppOp::DropRelease = self {
+            return "DropReceipt".into();
         }
         format!("{self:?}")
     }
